@@ -178,3 +178,156 @@ def dispatch_wire(d):
     ch = ",".join("+".join(c) + ":" + a for c, a in d["chain"]) or "-"
     ks = ",".join(n + ":" + "+".join(m) for n, m in d["kinds"]) or "-"
     return f"{ch};{d['fallback']};{'1' if d['nested'] else '0'};{ks}"
+
+
+# --------------------------------------------------------------------------- C12: set-iteration audit
+SET_SOURCES = ["core/datastructures/scfg.py", "core/transformations.py", "core/datastructures/basic_block.py",
+               "core/datastructures/flow_info.py", "core/datastructures/ast_transforms.py", "networkx_vendored/scc.py"]
+SET_METHODS = {"intersection", "difference", "union", "symmetric_difference", "copy"}
+
+
+def _ann_is_set(ann):
+    if ann is None:
+        return False
+    s = ast.unparse(ann)
+    return s.startswith("Set[") or s.startswith("set[") or s in ("set", "Set")
+
+
+def _ann_is_setmap(ann):
+    if ann is None:
+        return False
+    s = ast.unparse(ann)
+    return "Dict[str, Set[" in s or "dict[str, set[" in s
+
+
+class _SetSites(ast.NodeVisitor):
+    """Per function: infer set-typed names, then list every order-exposing use of a set."""
+
+    def __init__(self, rel):
+        self.rel = rel
+        self.sites = []
+
+    def visit_FunctionDef(self, fn):
+        sets, maps = set(), set()
+        for a in fn.args.args:
+            if _ann_is_set(a.annotation):
+                sets.add(a.arg)
+            if _ann_is_setmap(a.annotation):
+                maps.add(a.arg)
+
+        def is_set(e):
+            if isinstance(e, (ast.Set, ast.SetComp)):
+                return True
+            if isinstance(e, ast.Name):
+                return e.id in sets
+            if isinstance(e, ast.Call):
+                f = e.func
+                if isinstance(f, ast.Name) and f.id in ("set", "frozenset"):
+                    return True
+                if isinstance(f, ast.Attribute) and f.attr in SET_METHODS and is_set(f.value):
+                    return True
+                if isinstance(f, ast.Attribute) and f.attr == "reduce":      # functools.reduce(set.intersection, …)
+                    return "set." in ast.unparse(e)
+            if isinstance(e, ast.BinOp) and isinstance(e.op, (ast.BitAnd, ast.BitOr, ast.Sub)):
+                return is_set(e.left) or is_set(e.right)
+            if isinstance(e, ast.Subscript) and isinstance(e.value, ast.Name) and e.value.id in maps:
+                return True
+            return False
+        # two passes of name inference (assignments, annotated assignments, defaultdict(set))
+        for _ in range(3):
+            for n in ast.walk(fn):
+                if isinstance(n, ast.Assign) and len(n.targets) == 1 and isinstance(n.targets[0], ast.Tuple) \
+                        and isinstance(n.value, ast.Tuple) and len(n.value.elts) == len(n.targets[0].elts):
+                    for t, v in zip(n.targets[0].elts, n.value.elts):
+                        if isinstance(t, ast.Name) and is_set(v):
+                            sets.add(t.id)
+                if isinstance(n, ast.Assign) and len(n.targets) == 1 and isinstance(n.targets[0], ast.Tuple) \
+                        and isinstance(n.value, ast.Name) and any("Set[" in ast.unparse(a.annotation) for a in fn.args.args if a.annotation):
+                    # unpacking an element of a parameter that carries sets: the last target is the set
+                    last = n.targets[0].elts[-1]
+                    if isinstance(last, ast.Name):
+                        sets.add(last.id)
+                if isinstance(n, ast.Assign) and len(n.targets) == 1 and isinstance(n.targets[0], ast.Name):
+                    if is_set(n.value):
+                        sets.add(n.targets[0].id)
+                    if isinstance(n.value, ast.Call) and ast.unparse(n.value) == "defaultdict(set)":
+                        maps.add(n.targets[0].id)
+                    if isinstance(n.value, ast.DictComp) and is_set(n.value.value):
+                        maps.add(n.targets[0].id)
+                    if isinstance(n.value, ast.Dict) and n.value.values and all(is_set(v) for v in n.value.values):
+                        maps.add(n.targets[0].id)
+                if isinstance(n, ast.AnnAssign) and isinstance(n.target, ast.Name):
+                    if _ann_is_set(n.annotation) or (n.value is not None and is_set(n.value)):
+                        sets.add(n.target.id)
+                    if _ann_is_setmap(n.annotation):
+                        maps.add(n.target.id)
+                if isinstance(n, ast.AugAssign) and isinstance(n.target, ast.Name) and is_set(n.value):
+                    sets.add(n.target.id)
+                # `for k, vs in m.items()` over a set map → vs is a set
+                if isinstance(n, (ast.For, ast.comprehension)) and isinstance(n.iter, ast.Call) \
+                        and isinstance(n.iter.func, ast.Attribute) and n.iter.func.attr == "items" \
+                        and isinstance(n.iter.func.value, ast.Name) and n.iter.func.value.id in maps \
+                        and isinstance(n.target, ast.Tuple) and len(n.target.elts) == 2 and isinstance(n.target.elts[1], ast.Name):
+                    sets.add(n.target.elts[1].id)
+                # `for nodes in <List[Set]>`-style: names annotated List[Set[...]]
+                if isinstance(n, ast.AnnAssign) and isinstance(n.target, ast.Name) and "List[Set[" in ast.unparse(n.annotation):
+                    maps.add("@listofsets:" + n.target.id)
+        listofsets = {m.split(":", 1)[1] for m in maps if m.startswith("@listofsets:")}
+        for n in ast.walk(fn):
+            if isinstance(n, (ast.For, ast.comprehension)) and isinstance(n.iter, ast.Name) and n.iter.id in listofsets \
+                    and isinstance(n.target, ast.Name):
+                sets.add(n.target.id)
+
+        def add(node, expr, how):
+            self.sites.append({"file": self.rel, "function": fn.name, "line": node.lineno if hasattr(node, "lineno") else 0,
+                               "expr": ast.unparse(expr), "use": how})
+        parents = {}
+        for n in ast.walk(fn):
+            for c in ast.iter_child_nodes(n):
+                parents[id(c)] = n
+        for n in ast.walk(fn):
+            if isinstance(n, ast.For) and is_set(n.iter):
+                add(n, n.iter, "for")
+            if isinstance(n, (ast.ListComp, ast.SetComp, ast.DictComp, ast.GeneratorExp)):
+                for g in n.generators:
+                    if is_set(g.iter):
+                        par = parents.get(id(n))
+                        wrapper = "comprehension"
+                        if isinstance(n, ast.SetComp):
+                            wrapper = "comprehension->set"
+                        if isinstance(par, ast.Call) and isinstance(par.func, ast.Name) and par.func.id in ("sorted", "set", "len", "any", "all", "min", "max"):
+                            wrapper = "comprehension->" + par.func.id
+                        add(g.iter, g.iter, wrapper)
+            if isinstance(n, ast.Call):
+                f = n.func
+                if isinstance(f, ast.Name) and f.id in ("list", "tuple", "sorted", "iter", "enumerate", "deque") and n.args and is_set(n.args[0]):
+                    how = f.id
+                    par = parents.get(id(n))
+                    if f.id == "iter" and isinstance(par, ast.Call) and isinstance(par.func, ast.Name) and par.func.id == "next":
+                        how = "next(iter())"
+                    add(n, n.args[0], how)
+                if isinstance(f, ast.Attribute) and f.attr == "pop" and not n.args and is_set(f.value):
+                    add(n, f.value, "pop")
+                if isinstance(f, ast.Attribute) and f.attr in ("extend",) and n.args and is_set(n.args[0]):
+                    add(n, n.args[0], "extend")
+            if isinstance(n, ast.Assign) and isinstance(n.targets[0], (ast.List, ast.Tuple)) and is_set(n.value):
+                add(n, n.value, "unpack")
+        # nested functions are visited by ast.walk above as part of this function; do not recurse
+
+
+def set_sites():
+    out = []
+    for rel in SET_SOURCES:
+        v = _SetSites(rel)
+        tree = parse(rel)
+        for node in ast.walk(tree):
+            if isinstance(node, ast.FunctionDef):
+                # only outermost functions/methods (nested ones are walked with their parent)
+                v.visit_FunctionDef(node)
+        seen = set()
+        for s in v.sites:
+            key = (s["file"], s["line"], s["expr"], s["use"])
+            if key not in seen:
+                seen.add(key)
+                out.append(s)
+    return out
